@@ -280,6 +280,75 @@ fn cell_call(idx: u64, rec: &mut Rec) {
     }
 }
 
+/// Opt-in truncated redirects: the framing decision must follow the same rules on the fields that
+/// were accepted (in particular the response version must be the one on the wire).
+fn partial_cell(idx: u64, rec: &mut Rec) {
+    let mut x = idx as usize;
+    let mut take = |n: usize| {
+        let v = x % n;
+        x /= n;
+        v
+    };
+    let method = ["GET", "POST", "HEAD", "DELETE"][take(4)];
+    let status = [301u16, 302, 307, 308][take(4)];
+    let http10 = take(2) == 1;
+    let cl: Option<&[u8]> = [None, Some(&b"7"[..]), Some(&b"0"[..])][take(3)];
+    let te: Option<&[u8]> = [None, Some(&b"chunked"[..]), Some(&b"gzip, chunked"[..])][take(3)];
+    let exp = body_rule(method, status, http10, classify_cl(cl), classify_te(te));
+    let mut h = RespHead::new(http10, status);
+    if let Some(v) = cl {
+        h.fields.push(Field::new("Content-Length", v));
+    }
+    if let Some(v) = te {
+        h.fields.push(Field::new("Transfer-Encoding", v));
+    }
+    h.fields.push(Field::new("Location", b"/next"));
+    let full = h.render();
+    let truncated = &full[..full.len() - 2];
+    let mut f = match fast_to_recv(&ReqCfg::new(method, "http://h.test/r")) {
+        Ok(f) => f,
+        Err(e) => return rec.fail("C06/setup", e),
+    };
+    f.allow_partial_redirect(true);
+    rec.call();
+    let r = f.try_response(truncated);
+    rec.ev(|| format!("{} allow_partial_redirect(true) <- {:?} => model {:?}; -> {:?}", method, esc(truncated), exp, r.as_ref().map(|(n, r)| (*n, r.is_some()))));
+    let (framing, rule) = match (&exp, &r) {
+        (FrameExp::Is(f, r2), Ok((_, Some(_)))) => (*f, *r2),
+        _ => {
+            rec.cov("partial-redirect/not-judged");
+            return;
+        }
+    };
+    rec.cov(&format!("partial-redirect/rule={}", rule));
+    let want_next = successor(framing, status);
+    rec.call();
+    let got = f.proceed();
+    let (got_name, mode) = match &got {
+        Some(RecvResponseResult::RecvBody(b)) => ("RecvBody", Some(mode_of(b.body_mode()))),
+        Some(RecvResponseResult::Redirect(_)) => ("Redirect", None),
+        Some(RecvResponseResult::Cleanup(_)) => ("Cleanup", None),
+        None => ("None", None),
+    };
+    if got_name != want_next {
+        return rec.fail(
+            &format!("C06/successor/{}", rule),
+            format!("truncated {} {} {} CL={:?} TE={:?} accepted by opt-in: rule {} gives {:?} hence {}, flow went to {}", method, status, if http10 { "HTTP/1.0" } else { "HTTP/1.1" }, cl.map(esc), te.map(esc), rule, framing, want_next, got_name),
+        );
+    }
+    if let Some(m) = mode {
+        let want_mode = match framing {
+            Framing::Chunked => Mode::Chunked,
+            Framing::Length(n) => Mode::Length(n),
+            Framing::Close => Mode::Close,
+            Framing::NoBody => Mode::NoBody,
+        };
+        if m != want_mode {
+            rec.fail(&format!("C06/mode/{}", rule), format!("truncated {} {} {}: rule {} gives {:?}, body_mode() = {:?}", method, status, if http10 { "HTTP/1.0" } else { "HTTP/1.1" }, rule, want_mode, m));
+        }
+    }
+}
+
 impl Property for P {
     fn id(&self) -> &'static str {
         "C06"
@@ -289,7 +358,8 @@ impl Property for P {
     }
     fn assumptions(&self) -> Vec<String> {
         vec![
-            "don't-care cells (only no-panic checked): bodyless responses with a non-numeric Content-Length; chunked together with a non-numeric Content-Length; coding lists where chunked is not last; '+1'; HTTP/1.0 3xx whose only framing header is Transfer-Encoding: chunked; 3xx with only a non-chunked Transfer-Encoding".into(),
+            "a non-numeric Content-Length is an error in every cell, as the statement says without exception (also on bodyless responses and next to a chunked coding)".into(),
+            "don't-care cells (only no-panic checked): coding lists where chunked is not last; '+1'; HTTP/1.0 3xx whose only framing header is Transfer-Encoding: chunked; 3xx with only a non-chunked Transfer-Encoding".into(),
             "status 100 belongs to C05/C11".into(),
         ]
     }
@@ -297,11 +367,14 @@ impl Property for P {
         vec![
             Workload::new("flow-table", 9 * 899 * 2 * 12 * 11, true, "full product through Flow"),
             Workload::new("call-table", 9 * 14 * 2 * 12 * 11, true, "14 statuses through Call::into_body"),
+            Workload::new("partial-redirect-framing", 4 * 4 * 2 * 3 * 3, true, "allow_partial_redirect(true): truncated 3xx heads, framing judged on the accepted fields"),
         ]
     }
     fn run_case(&self, wl: &str, idx: u64, _seed: u64, rec: &mut Rec) {
         if wl == "flow-table" {
             cell(idx, rec)
+        } else if wl == "partial-redirect-framing" {
+            partial_cell(idx, rec)
         } else {
             cell_call(idx, rec)
         }
@@ -310,7 +383,7 @@ impl Property for P {
         [
             "rule=HEAD/*", "rule=CONNECT-2xx/*", "rule=1xx/*", "rule=204/*", "rule=304/*", "rule=chunked/next=RecvBody", "rule=chunked-over-length/next=RecvBody",
             "rule=length/next=RecvBody", "rule=length/next=Redirect", "rule=length/next=Cleanup", "rule=length-http10-ignores-chunked/*", "rule=close/next=RecvBody",
-            "rule=close-http10-ignores-chunked/*", "rule=redirect-without-framing/next=Redirect", "error/non-numeric-content-length", "call/rule=length", "call/rule=HEAD",
+            "rule=close-http10-ignores-chunked/*", "rule=redirect-without-framing/next=Redirect", "error/non-numeric-content-length", "error/non-numeric-content-length-on-bodyless", "error/non-numeric-content-length-with-chunked", "call/rule=length", "call/rule=HEAD", "partial-redirect/rule=*",
         ]
         .iter()
         .map(|k| (k.to_string(), 50))
